@@ -206,9 +206,8 @@ def ref_check(conds, out, res):
         mx = max(tots)
         e = outby.get(str(idx))
         if mx == 0:
-            if e is not None:
-                res.viol("row_without_any_match_is_retained", row=idx, **w)
-                return
+            if e is not None:  # whether a row without any match is kept (with an empty result) is not stated
+                res.count("row_without_any_match_retained(not asserted)")
             continue
         if e is None:
             res.count("row_with_match_dropped(not asserted)")
